@@ -12,7 +12,8 @@ THEOREMS = ["C16_flat_roundtrip", "C16_int_all_widths", "C16_uint64_roundtrip", 
             "C16_bytes_roundtrip", "C16_bool_roundtrip", "C16_float64_roundtrip", "C16_pointer_roundtrip",
             "C16_sorted_keys_deterministic", "C16_sort_keys_sorted", "C16_roundtrip_rty", "C16_marshal_denotes_ion_of",
             "C16_unmarshal_inverts_ion_of", "C16_empty_slice_roundtrip", "C16_bigint_roundtrip", "C16_decimal_value_roundtrip",
-            "C16_annotation_only_struct_is_error", "C16_roundtrip_all_refuted_nested_nil"]
+            "C16_annotation_only_struct_is_error", "C16_roundtrip_all_refuted_nested_nil", "C16_roundtrip_rty2", "C16_roundtrip_rty2_both_modes", "C16_marshal_denotes_ion2", "C16_unmarshal_inverts_ion2", "C16_rty_in_rty2", "C16_rty_no_side_condition", "C16_omitted_is_zero", "C16_float32_never_overflows", "C16_sort_keys_order_independent", "C16_enc_map_order_independent", "C16_marshal_text_map_order_independent", "C16_roundtrip_rty2_all_values_refuted", "C16b_ex_type", "C16b_ex_roundtrip"]
+EXTRA_MODULES = ["C16b"]
 
 LEVEL = "proof"
 EXPLANATION = ("Gallina model of marshal.go (Go/Encode.v: the Writer call sequence of Encoder.encodeValue) and of unmarshal.go; "
